@@ -73,6 +73,19 @@ def run(ck):
         cases.append({"mode": "image", "N": N, "profile": PROFILES[(j_ * 3 + ck.seed) % 7], "truth_profile": "pointsource", "params": {"xc": 20.0, "yc": 20.0, "flux": 1e-3},
                       "snr": 1e-3, "offset": [-0.5, -0.1, 0.0][j_ % 3], "mask": bool(j_ % 2), "sky": ["none", "flat", "tilted-plane"][j_ % 3], "negative": True, "ndraw": 30,
                       "seed": rng.randint(0, 10**6)})
+    # compact sources (r_eff guess below 1.5 px, where guess-dependent bounds would dip under the 0.5 px limit): every type, explicit guesses and catalogues
+    rng2 = random.Random(ck.seed * 104729 + 1212)
+    for T in PROFILES:
+        g = {"flux_guess": rng2.choice([16.0, 250.5]), "flux_guess_err": 4.0, "xc_guess": 10.5, "yc_guess": 17.75, "r_eff_guess": rng2.choice([0.75, 0.9, 1.2, 0.55]),
+             "r_eff_guess_err": rng2.choice([1.0, 0.25]), "theta_guess": 0.5, "sky_guess": 0.25, "sky_guess_err": 0.5}
+        cases.append({"mode": "table", "profile": T, "sky": rng2.choice(["none", "flat", "tilted-plane"]), "suffix": rng2.choice(["", "_c"]), "guesses": g})
+    for _ in range(2 if quick else 10):
+        k = 7
+        types = list(PROFILES)
+        rng2.shuffle(types)
+        cat = {"x": [rng2.choice([5.0, 10.5, 20.0]) for _ in range(k)], "y": [rng2.choice([6.0, 11.5]) for _ in range(k)], "flux": [rng2.choice([100.0, 16.0]) for _ in range(k)],
+               "r": [rng2.choice([0.6, 0.9, 1.2, 3.0]) for _ in range(k)], "type": types, "theta": [0.25] * k}
+        cases.append({"mode": "multi", "catalog": cat, "form": rng2.choice(["dict", "dataframe"]), "sky": "flat", "suffix": rng2.choice(["", "_b"])})
     ck.log("implementation: %d cases (table / multi / image)" % len(cases))
     import concurrent.futures as cf
     nsh = min(6, vlib.NCPU)
@@ -126,6 +139,7 @@ def run(ck):
                     if e is None or abs(float.fromhex(e["loc"]) - c["catalog"][col][i]) > 1e-5 * (1 + abs(c["catalog"][col][i])):
                         oracle_bad.append((c, {"oracle": ["%s is not centred on catalogue %s[%d]" % (key, col, i)]}))
     ck.rule = ("7 profile types x sky types x suffixes with explicit guesses (table mode); 1..6-source catalogues as dict/DataFrame/recarray with/without theta (multi mode); "
+               "compact sources (r_eff guess 0.55..1.2 px) of every type in both modes, prior draws checked against the physical domain; "
                "autoprior on rendered images with S/N 5..1e4, masks, negative images (image mode, implementation-side oracle)")
     ok, detail, failing = True, "", []
     if any(o["name"].startswith("translate:") and not o["ok"] for o in ck.obligations):
